@@ -9,10 +9,11 @@ import (
 
 // Val is a symbolic Go value: an SMT term with the Go type it models.
 type Val struct {
-	T   string     // SMT term
-	Typ types.Type // Go type (may be nil for ghost values; then Sort is set)
-	S   string     // explicit sort (ghost values)
-	Clo *Closure   // non-nil for locally bound function literals / inlined closure results
+	T       string     // SMT term
+	Typ     types.Type // Go type (may be nil for ghost values; then Sort is set)
+	S       string     // explicit sort (ghost values)
+	Clo     *Closure   // non-nil for locally bound function literals / inlined closure results
+	Unboxed *Val       // set on a value that was just converted to an interface: the concrete value (contracts name it uK)
 }
 
 // Closure is a function literal bound at verification time (inlined at calls).
@@ -25,8 +26,8 @@ type Closure struct {
 
 // Sorts maps Go types to SMT sorts and collects declarations.
 type Sorts struct {
-	decls    []string          // ordered declarations
-	declared map[string]bool   // sort / symbol name -> declared
+	decls    []string        // ordered declarations
+	declared map[string]bool // sort / symbol name -> declared
 	structs  map[string]*types.Struct
 	module   string // module path prefix whose structs are modelled as datatypes
 	bv       bool   // bit-vector mode for integers
@@ -258,14 +259,20 @@ func (s *Sorts) SortOf(t types.Type) string {
 			srt := fmt.Sprintf("ArrB%d", n)
 			if !s.declared[srt] {
 				s.declare(srt, fmt.Sprintf("(declare-sort %s 0)", srt))
-				s.declare("at_"+srt, fmt.Sprintf("(declare-fun at_%s (%s Int) Int)", srt, srt))
+				// the element accessor is a macro over one array-valued function of the opaque value, so that a view of
+				// the value as a slice is one array equality (one quantifier instance per slice term) and not one
+				// instance per element term
+				s.declare("arr_"+srt, fmt.Sprintf("(declare-fun arr_%s (%s) (Array Int Int))", srt, srt))
+				s.declare("at_"+srt, fmt.Sprintf("(define-fun at_%s ((a!d %s) (i!d Int)) Int (select (arr_%s a!d) i!d))", srt, srt, srt))
 				s.declare("zero_"+srt, fmt.Sprintf("(declare-const zero_%s %s)", srt, srt))
 				s.decls = append(s.decls, fmt.Sprintf("(assert (forall ((i!c Int)) (! (= (at_%s zero_%s i!c) 0) :pattern ((at_%s zero_%s i!c)))))", srt, srt, srt, srt))
 				s.decls = append(s.decls, fmt.Sprintf("(assert (forall ((a!c %s) (b!c %s)) (=> (forall ((i!c Int)) (=> (and (<= 0 i!c) (< i!c %d)) (= (at_%s a!c i!c) (at_%s b!c i!c)))) (= a!c b!c))))", srt, srt, n, srt, srt))
-				s.decls = append(s.decls, fmt.Sprintf("(assert (forall ((a!c %s) (i!c Int)) (! (and (<= 0 (at_%s a!c i!c)) (<= (at_%s a!c i!c) 255)) :pattern ((at_%s a!c i!c)))))", srt, srt, srt, srt))
+				// the byte range of elements is assumed at the read sites in code (indexVal), like for byte slices:
+				// a global range axiom costs two arithmetic facts per element term and made obligations with many
+				// element terms slow (cluster.Lock.verifyBuilderRegistrations: 13 s against a 15 s budget)
 				s.declare("slice_"+srt, fmt.Sprintf("(declare-fun slice_%s (%s) (Slice Int))", srt, srt))
 				s.decls = append(s.decls, fmt.Sprintf("(assert (forall ((a!c %s)) (! (and (= (s_len (slice_%s a!c)) %d) (not (s_nil (slice_%s a!c)))) :pattern ((slice_%s a!c)))))", srt, srt, n, srt, srt))
-				s.decls = append(s.decls, fmt.Sprintf("(assert (forall ((a!c %s) (i!c Int)) (! (=> (and (<= 0 i!c) (< i!c %d)) (= (select (s_arr (slice_%s a!c)) i!c) (at_%s a!c i!c))) :pattern ((select (s_arr (slice_%s a!c)) i!c)))))", srt, n, srt, srt, srt))
+				s.decls = append(s.decls, fmt.Sprintf("(assert (forall ((a!c %s)) (! (= (s_arr (slice_%s a!c)) (arr_%s a!c)) :pattern ((slice_%s a!c)))))", srt, srt, srt, srt))
 				s.decls = append(s.decls, fmt.Sprintf("(assert (forall ((a!c %s) (b!c %s)) (! (=> (= (slice_%s a!c) (slice_%s b!c)) (= a!c b!c)) :pattern ((slice_%s a!c) (slice_%s b!c)))))", srt, srt, srt, srt, srt, srt))
 			}
 			return srt
